@@ -22,6 +22,7 @@ OUT = WORK if VF_TAG else ROOT
 PYPATH = (VF_REPO + ":" if VF_REPO else "") + ROOT
 PLUGIN = ROOT + "/vf/plugin_stats.py"
 EXIT_HARNESS_ERROR = 3
+T0_OVERRIDE = None  # engines that do their work before calling run_property set this for an honest wall time
 
 
 class Harness:
@@ -136,7 +137,7 @@ def run_property(prop, harnesses, tier, seed, timeout, bounds, assumptions, func
                  extra_cov=None, extra_results=None, jobs=16):
     """extra_results: list of dicts from non-CrossHair engines (direct z3), each
     {name, verdict in confirmed|refuted|inconclusive, kind main|twin, replay: {...}|None, sig, detail, smt_checks, smt_time}"""
-    t_start = time.time()
+    t_start = T0_OVERRIDE or time.time()
     wd = os.path.join(WORK, prop)
     shutil.rmtree(wd, ignore_errors=True)
     os.makedirs(wd, exist_ok=True)
